@@ -1,5 +1,6 @@
 """driver:  python -m harness.run Cxx [--tier quick|thorough] [--replay file] [--jobs N]"""
 import argparse
+import json
 import importlib
 import logging
 import multiprocessing as mp
@@ -67,10 +68,35 @@ def _worker(args):
             signal.alarm(0)
         except Exception:
             pass
+    for sf in rep.extra.get('side_failed', []):  # (so that the replay of a failed side condition can re-execute exactly this task)
+        sf.setdefault('task_repr', repr(task))
+        sf.setdefault('tier', tier)
     d = rep.export()
     d['task'] = str(task)[:160]
     d['task_wall'] = time.time() - t
     return d
+
+
+def replay_side(mod, pid, full, seed):
+    """replay of a failed concrete side condition: the task it came from is executed again on the current tree; reproduced iff the same condition fails"""
+    sf = full['replay']
+    want = sf['name']
+    for tier in ([sf.get('tier')] if sf.get('tier') else []) + ['quick', 'thorough']:
+        for t in mod.tasks(tier, seed):
+            if repr(t) == sf['task_repr']:
+                rep = Report(pid, LEVELS.get(pid, 'other'), tier, seed)
+                core.QS.__init__()
+                try:
+                    mod.run_task(rep, t)
+                except Exception as e:
+                    print('re-execution raised', type(e).__name__, e)
+                failed = [x for x in rep.extra.get('side_failed', []) if x['name'] == want]
+                for x in failed[:1]:
+                    print('side condition fails again:', want, str(x.get('detail'))[:400])
+                print('REPRODUCED' if failed else 'not reproduced')
+                return 1 if failed else 0
+    print('the task of this side condition is not among the tasks of the check any more:', sf['task_repr'][:200])
+    return 2
 
 
 def _run_pool(pid, tier, seed, tasks, jobs):
@@ -125,6 +151,12 @@ def main(argv=None):
     logging.disable(logging.CRITICAL)
     mod = importlib.import_module(f'harness.{pid.lower()}')
     if a.replay:
+        try:
+            full = json.load(open(a.replay))
+        except Exception:
+            full = {}
+        if '/side/' in str(full.get('key', '')) and isinstance(full.get('replay'), dict) and full['replay'].get('task_repr'):
+            return replay_side(mod, pid, full, seed)
         return mod.replay(a.replay)
     rep = Report(pid, LEVELS.get(pid, 'other'), a.tier, seed)
     try:
